@@ -165,6 +165,9 @@ def check_case(case, res):
     alg.random = menu
     try:
         nl.spectral_layout(Shape(W, H), case['trials'], False)
+        if case.get('again'):
+            # a second placement of the SAME netlist object (a second best-of run): the invariants are those of one run
+            nl.spectral_layout(Shape(W, H), max(1, case['trials']), False)
     except Exception as e:  # noqa
         res.violation('raises', case, dict(attrs, exc=type(e).__name__), 'a placement', f'{type(e).__name__}: {e}')
         res.case('raised')
@@ -243,6 +246,10 @@ def configurations(tier):
         # a design in very large units (the convergence tolerance max(die) * n * 1e-10 reaches 1)
         cfgs.append(dict(topo='path', masses='unequal', extra='none', die=[2.4e9, 1.6e9], n=5, trials=1, menu=2, reduced4=True))
         cfgs.append(dict(topo='cycle', masses='equal', extra='hard', die=[2.4e9, 1.6e9], n=4, trials=2, menu=2, reduced4=True))
+        # placed twice on the same object: movable hard modules (small and large) and a fixed block
+        cfgs.append(dict(topo='clique', masses='unequal', extra='hard', die=[6, 4], n=4, trials=1, menu=2, reduced4=True, again=True))
+        cfgs.append(dict(topo='path', masses='unequal', extra='bighard', die=[6, 4], n=4, trials=1, menu=2, reduced4=True, again=True))
+        cfgs.append(dict(topo='star', masses='equal', extra='fixed', die=[4, 4], n=4, trials=1, menu=2, reduced4=True, again=True))
         # modules tied only to a fixed pad on the die edge
         cfgs.append(dict(topo='star', masses='equal', extra='padonly', die=[6, 4], n=4, trials=1, menu=2, reduced4=True))
         # the heaviest soft module carries a small rectangle
@@ -310,6 +317,8 @@ def run_shard(shard, tier, res):
                 case['scale'] = cfg['scale']
             if cfg.get('softrect'):
                 case['softrect'] = True
+            if cfg.get('again'):
+                case['again'] = True
             check_case(case, res)
             last = case
     if shard['part'] == 0:
